@@ -197,13 +197,36 @@ pub fn c01_stream_case(rec: &mut Rec, rng: &mut Rng, stream: &[u8], limit: usize
 pub fn c01(rec: &mut Rec, rng: &mut Rng, thorough: bool) {
     regress_f1(rec);
     let n = if thorough { 6000 } else { 200 };
-    let n_sched = if thorough { 12 } else { 6 };
+    let n_sched = if thorough { 12 } else { 8 };
     for i in 0..n {
         let limit = pick_limit(rng);
-        let kind = i % 5;
+        let kind = i % 6;
         let (mut stream, plans) = pipeline(rng, 5, kind == 1 || kind == 2);
         let descr;
         match kind {
+            5 => {
+                // a request line or header line whose length (with CR LF) is around the window size
+                let total = rng.range(1020, 1027);
+                let mut s = vec![];
+                if rng.chance(1, 2) {
+                    s.extend_from_slice(&plans[0].bytes());
+                }
+                if rng.chance(1, 2) {
+                    s.extend_from_slice(format!("GET /{} HTTP/1.1\r\n", "u".repeat(total - 2 - 14)).as_bytes());
+                    s.extend_from_slice(b"X: y\r\n\r\n");
+                } else {
+                    s.extend_from_slice(b"GET /long HTTP/1.1\r\n");
+                    if rng.chance(1, 2) {
+                        s.extend_from_slice(b"A: b\r\n");
+                    }
+                    s.extend_from_slice(format!("L: {}\r\n\r\n", "l".repeat(total - 2 - 3)).as_bytes());
+                }
+                if rng.chance(1, 2) {
+                    s.extend_from_slice(b"GET /after HTTP/1.0\r\n\r\n");
+                }
+                stream = s;
+                descr = format!("long-line-{}", total);
+            }
             3 => {
                 // one corruption somewhere
                 let which = *rng.pick(&gen::CORRUPTIONS);
@@ -545,7 +568,7 @@ pub fn c04(rec: &mut Rec, rng: &mut Rng, thorough: bool) {
     }
     // line length: rejected iff longer than 1024 including CRLF, wherever the line falls
     let lens: Vec<usize> = if thorough { (1000..=1100).collect() } else { vec![1000, 1015, 1020, 1021, 1022, 1023, 1024, 1025, 1026, 1027, 1030, 1100] };
-    let n_off = if thorough { 48 } else { 5 };
+    let n_off = if thorough { 48 } else { 12 };
     for &len in &lens {
         for k in 0..n_off {
             for is_reqline in [false, true] {
@@ -569,8 +592,16 @@ pub fn c04(rec: &mut Rec, rng: &mut Rng, thorough: bool) {
                     stream.extend_from_slice(b"GET /h HTTP/1.1\r\n");
                     stream.extend_from_slice(format!("L: {}\r\n", "l".repeat(line_no_crlf.saturating_sub(3))).as_bytes());
                 }
+                let line_end = stream.len(); // index just after the long line's LF
                 stream.extend_from_slice(b"\r\n");
-                let cuts = gen::cuts(rng, &stream, if k % 2 == 0 { 0 } else { 5 });
+                let cuts = match k % 6 {
+                    0 => vec![],
+                    1 => vec![line_end - 1],               // between CR and LF
+                    2 => vec![line_end - 2],               // before CR
+                    3 => vec![line_end],                   // after LF
+                    4 => vec![line_end - 2, line_end - 1, line_end],
+                    _ => gen::cuts(rng, &stream, 5),
+                };
                 let mut err: Option<String> = None;
                 'f: for ch in gen::split_at_cuts(&stream, &cuts) {
                     for r in d.recv(rec, &ch, 0) {
